@@ -80,6 +80,26 @@ def run(c):
     if r.violated != "Agreement":
         raise Infra("KardiaBFT with SigBindsType=FALSE should violate Agreement")
     c.states -= 0
+    # the join: the per-validator obligations hold for the real handlers (C03's binding, reduced scale here),
+    # and a commit is accepted as justifying a block only with +2/3 for-block precommits (C02's VerifyCommit
+    # enumeration for one vector) — block sync adopts a block exactly when VerifyCommit accepts its commit
+    import checks.nodecommon as nc, checks.C02 as c02
+    table = nc.proposer_table(c)
+    d = nc.env_bfs(c, table, 2, 2, "join: bfs2-prefixes", prefixes=True)
+    g = c.gotest("node", "TestEnvReplay", env=dict(NODE_DUMP=d, NODE_ME=2, NODE_STRIDE=(4 if th else 40)), timeout=6000,
+                 tag="join: replay of MC_NodeEnv transitions on a real node")
+    c.absorb(g)
+    os.remove(d)
+    files = c02.mc_files("MC_Commit", "MCc", (1, 1, 1, 1))
+    files["MCc.cfg"] = ("SPECIFICATION Spec\nCONSTANTS\n  Power <- PowerV\n  Blocks = %s\n  Peers = {\"p1\"}\n"
+                        "INVARIANT Sound\nINVARIANT Completeness\nACTION_CONSTRAINT Dump\n") % c02.BLOCKS
+    d = os.path.join(c.scratch, "join-commit.dump")
+    r = c.tlc("voteset", "MCc.cfg", module="MCc", files=files, dump_to=d, timeout=1200, tag="join: MC_Commit (1,1,1,1)")
+    if not r.ok:
+        raise Infra("TLC failed on MC_Commit: %s %s" % (r.violated, r.error))
+    g = c.gotest("voteset", "TestCommit", env=dict(VS_DUMP=d, VS_POWER="1,1,1,1"), timeout=1200, tag="join: VerifyCommit enumeration")
+    c.absorb(g)
+    os.remove(d)
     # layer 2
     cfgs = ["4eq-byz", "4w-byz", "4eq-byz2"] + (["5w-byz", "7eq-byz2", "3eq-nobyz", "4eq-calm"] if th else ["7eq-byz2"])
     net_runs(c, cfgs, 40 if th else 5, ("net:agreement", "net:panic"))
